@@ -134,16 +134,40 @@ def mealy(build, tin="num", tout="num", first=False):
               grid=lambda tier: [[]], kind="mealy")
 
 
-def stage(coq, build, nsrc=1, tin="num", tout="num", first=False, grid=None, kind="", eager=False):
+def stage(coq, build, nsrc=1, tin="num", tout="num", first=False, grid=None, kind="", eager=False,
+          prefix=None, refuse=None):
+  """prefix: p -> (src, n): a documented bounded prefix of parameter source src is taken at construction;
+  refuse: name of the exception the call must raise instead of building a stage (without touching a source)."""
   return dict(coq=coq, build=build, nsrc=nsrc, tin=tin, tout=tout, first=first,
-              grid=grid or (lambda tier: [[]]), kind=kind, eager=eager)
+              grid=grid or (lambda tier: [[]]), kind=kind, eager=eager, prefix=prefix, refuse=refuse)
+
+
+def ctor_prefix(case):
+  """{source: number of items the construction of the case's first stage may take from it}."""
+  e = STAGES[case["first"][0]]
+  if e.get("prefix"):
+    src, n = e["prefix"](case["first"][1])
+    return {src: n}
+  return {}
+
+
+def ckind_lit(case):
+  e = STAGES[case["first"][0]]
+  if e.get("eager"):
+    return "CEager"
+  if e.get("prefix"):
+    src, n = e["prefix"](case["first"][1])
+    return "(CPrefix %s %s)" % (L.nat(src), L.nat(n))
+  if e.get("refuse"):
+    return "(CRefuse %s)" % L.string(e["refuse"])
+  return "CLazy"
 
 
 def nl(xs):
   return L.lst([L.nat(x) for x in xs])
 
 
-def numval(n, kind):
+def numval(n, kind, raw=None):
   """The same count n given as int / float / Fraction / bool-free non-integers that round to n (round half even)."""
   if kind == "int":
     return n
@@ -155,11 +179,25 @@ def numval(n, kind):
     return n + .4
   if kind == "f-.4":
     return n - .4
+  if kind == "rawfloat":
+    return float(Fraction(raw[0], raw[1]))
+  if kind == "bool":
+    return True
+  if kind == "boolF":
+    return False
   raise KeyError(kind)
 
 
+def pyround(x):
+  return max(int(round(x)), 0)
+
+
 NKINDS = ["int", "float", "frac", "f+.4", "f-.4"]
-N05T = lambda tier: [[n, kd] for n in range(0, 6) for kd in NKINDS if not (kd == "f-.4" and n == 0)]
+# [effective n, kind, raw value as (num, den)]: also exact .5 ties (round half even), negative values, bool, n >= 6
+SPECIALS = [Fraction(1, 2), Fraction(3, 2), Fraction(5, 2), Fraction(7, 2), Fraction(-1), Fraction(-5, 2)]
+N05T = lambda tier: ([[n, kd] for n in list(range(0, 6)) + [7, 9] for kd in NKINDS if not (kd == "f-.4" and n == 0)] +
+                     [[pyround(float(v)), "rawfloat", [v.numerator, v.denominator]] for v in SPECIALS] +
+                     [[1, "bool"], [0, "boolF"]])
 DYADIC = [(1, 1), (1, 2), (2, 1), (3, 2), (5, 2), (1, 4)]
 RESAMP_T = lambda tier: ([[o, a, b, "frac"] for o in range(0, 4) for (a, b) in RATIOS] +
                          [[o, a, b, kd] for o in range(0, 4) for (a, b) in DYADIC for kd in ("int", "float")])
@@ -329,11 +367,11 @@ STAGES = {
                       lambda al, lit, s, p: lit.ifilter(lambda x: x % p[0] == p[1], s[0]), first=True, grid=MODS, kind="filter"),
   "it.ifilterfalse": stage(lambda p: "(GFilter %s %s)" % (L.nat(p[0]), L.nat(p[1])),
                            lambda al, lit, s, p: lit.ifilterfalse(lambda x: x % p[0] != p[1], s[0]), first=True, grid=MODS, kind="filter"),
-  "Stream.skip": stage(lambda p: "(GSkip %s)" % L.nat(p[0]), lambda al, lit, s, p: al.Stream(s[0]).skip(numval(p[0], p[1])),
+  "Stream.skip": stage(lambda p: "(GSkip %s)" % L.nat(p[0]), lambda al, lit, s, p: al.Stream(s[0]).skip(numval(*p)),
                        tin="any", tout="same", grid=N05T, kind="skip"),
   "it.dropwhile": stage(lambda p: "(GSkip %s)" % L.nat(p[0]), lambda al, lit, s, p: lit.dropwhile(lambda x: x < p[0], s[0]),
                         first=True, grid=N05, kind="skip"),
-  "Stream.limit": stage(lambda p: "(GLimit %s)" % L.nat(p[0]), lambda al, lit, s, p: al.Stream(s[0]).limit(numval(p[0], p[1])),
+  "Stream.limit": stage(lambda p: "(GLimit %s)" % L.nat(p[0]), lambda al, lit, s, p: al.Stream(s[0]).limit(numval(*p)),
                         tin="any", tout="same", grid=N05T, kind="limit"),
   "it.islice": stage(lambda p: "(GLimit %s)" % L.nat(p[0]), lambda al, lit, s, p: lit.islice(s[0], p[0]),
                      tin="any", tout="same", grid=N05, kind="limit"),
@@ -379,6 +417,55 @@ STAGES = {
                     grid=RESAMP_T, kind="resample"),
   "resample.step_stream": stage(lambda p: "(GResampleTV %s %s %s)" % (L.nat(p[0]), L.nat(p[1]), L.nat(p[2])),
                                 _resample_tv, nsrc=2, first=True, grid=RESAMP_TV, kind="resample_tv"),
+  # ---- secondary parameter sources ------------------------------------------------------------------------
+  "attack.sustain": stage(lambda p: "(GAttack %s)" % L.nat(int(p[0] + .5) + int(p[1] + .5)),
+                          lambda al, lit, s, p: al.attack(p[0], p[1], s[0]),
+                          grid=lambda tier: [[1, 1], [2, 1.6], [3.4, 2], [.6, .7], [6, 5]], kind="attack"),
+  "filter.memory_source": stage(lambda p: "GMealy",
+                                lambda al, lit, s, p: (al.ZFilter([1, 2]) if p[0] == 0 else
+                                                       1 / (1 - .5 * Z(al) ** -p[0]))(s[0], memory=s[1]),
+                                nsrc=2, first=True, grid=lambda tier: [[0], [1], [2], [3], [6]], kind="mealy_mem",
+                                prefix=lambda p: (1, p[0] + 1)),
+  "filter.memory_source_fir": stage(lambda p: "GMealy",
+                                    lambda al, lit, s, p: (1 + Z(al) ** -2)(s[0], memory=s[1]),
+                                    nsrc=2, first=True, kind="mealy_mem", prefix=lambda p: (1, 1)),
+  "envelope.abs.cutoff_stream": stage(lambda p: "(GZip %s)" % nl([0, 1]),
+                                      lambda al, lit, s, p: al.envelope.abs(s[0], cutoff=al.Stream(s[1]) * 0 + .1),
+                                      nsrc=2, first=True, kind="zip"),
+  "envelope.squared.cutoff_stream": stage(lambda p: "(GZip %s)" % nl([0, 1]),
+                                          lambda al, lit, s, p: al.envelope.squared(s[0], cutoff=al.Stream(s[1]) * 0 + .1),
+                                          nsrc=2, first=True, kind="zip"),
+  "envelope.rms.cutoff_stream": stage(lambda p: "(GZip %s)" % nl([0, 1]),
+                                      lambda al, lit, s, p: al.envelope.rms(s[0], cutoff=al.Stream(s[1]) * 0 + .1),
+                                      nsrc=2, first=True, tout="cplx", kind="zip"),
+  # ---- default strategies and the StreamTeeHub methods ----------------------------------------------------------
+  "envelope.default": mealy(lambda al, lit, s, p: al.envelope(s[0]), "num", "cplx"),
+  "maverage.default": mealy(lambda al, lit, s, p: al.maverage(3)(s[0])),
+  "comb.default": mealy(lambda al, lit, s, p: al.comb(3, .5)(s[0])),
+  "thub.map": mealy(lambda al, lit, s, p: al.thub(s[0], 1).map(_ident), "any", "same"),
+  "thub.copy": mealy(lambda al, lit, s, p: al.thub(s[0], 1).copy(), "any", "same"),
+  "thub.skip": stage(lambda p: "(GSkip %s)" % L.nat(p[0]), lambda al, lit, s, p: al.thub(s[0], 1).skip(p[0]),
+                     tin="any", tout="same", grid=N05, kind="skip"),
+  "thub.limit": stage(lambda p: "(GLimit %s)" % L.nat(p[0]), lambda al, lit, s, p: al.thub(s[0], 1).limit(p[0]),
+                      tin="any", tout="same", grid=N05, kind="limit"),
+  "thub.filter": stage(lambda p: "(GFilter %s %s)" % (L.nat(p[0]), L.nat(p[1])),
+                       lambda al, lit, s, p: al.thub(s[0], 1).filter(lambda x: x % p[0] == p[1]), first=True, grid=MODS, kind="filter"),
+  "thub.append": stage(lambda p: "(GChain %s)" % nl([0, 1]), lambda al, lit, s, p: al.thub(s[0], 1).append(s[1]),
+                       nsrc=2, first=True, kind="chain"),
+  "thub.blocks": stage(lambda p: "(GBlocks %s %s)" % (L.nat(p[0]), L.nat(p[1])),
+                       lambda al, lit, s, p: al.thub(s[0], 1).blocks(size=p[0], hop=p[1]), tin="any", tout="blk",
+                       grid=lambda tier: [[2, 2], [3, 1], [2, 5]], kind="blocks"),
+  # ---- calls that must be refused WITHOUT touching the source --------------------------------------------------------
+  "refuse.stft_hop_gt_size": stage(lambda p: '(GRefuse "ValueError")', lambda al, lit, s, p: _stft(al, lit, s, [2, 3]),
+                                   first=True, kind="refuse", refuse="ValueError"),
+  "refuse.clip_high_lt_low": stage(lambda p: '(GRefuse "ValueError")', lambda al, lit, s, p: al.clip(s[0], 2, 1),
+                                   first=True, kind="refuse", refuse="ValueError"),
+  "refuse.noncausal_filter": stage(lambda p: '(GRefuse "ValueError")', lambda al, lit, s, p: (Z(al) ** 1)(s[0]),
+                                   first=True, kind="refuse", refuse="ValueError"),
+  "refuse.streamix_negative_delta": stage(lambda p: '(GRefuse "ValueError")', lambda al, lit, s, p: _streamix(al, lit, s, [-1]),
+                                          first=True, kind="refuse", refuse="ValueError"),
+  "refuse.stream_mixed_args": stage(lambda p: '(GRefuse "TypeError")', lambda al, lit, s, p: al.Stream(s[0], 3),
+                                    first=True, kind="refuse", refuse="TypeError"),
   # ---- combinatoric itertools wrappers: their C constructors drain the input ---------------------------
   "it.product": stage(lambda p: "GMealy", lambda al, lit, s, p: lit.product(s[0]), first=True, kind="eager", eager=True),
   "it.permutations": stage(lambda p: "GMealy", lambda al, lit, s, p: lit.permutations(s[0], 2), first=True, kind="eager", eager=True),
@@ -394,8 +481,10 @@ def expand(name, p):
     return [("blocks", [p[0], p[1]]), ("mealy", []), ("ola", [p[0], p[1], False])]
   e = STAGES[name]
   k = e["kind"]
-  if k == "mealy":
+  if k in ("mealy", "mealy_mem", "refuse"):
     return [("mealy", [])]
+  if k == "attack":
+    return [("attack", [int(p[0] + .5) + int(p[1] + .5)])]
   if k == "par":
     return [("par", [])]
   if k == "zip":
@@ -452,6 +541,8 @@ def prim_need(d, i, k):
     return k if ("%d%%nat" % i) in p else 0
   if kind == "filter":
     return p[1] + (k - 1) * p[0] + 1 if i == 0 else 0
+  if kind == "attack":
+    return 1 + max(0, k - p[0])
   if kind == "skip":
     return p[0] + k
   if kind == "limit":
@@ -594,9 +685,8 @@ def lit_lazy(c, o):
   sts = []
   for name, p in [c["first"]] + c["rest"]:
     sts += coq_stages(name, p)
-  eager = STAGES[c["first"][0]].get("eager", False)
   return "(LC %s %s %s %s %s %s %s)" % (
-    L.boolean(eager), sts[0], L.lst(sts[1:]), L.lst([srcd_lit(s) for s in c["srcs"]]), L.nat(c["k"]),
+    ckind_lit(c), sts[0], L.lst(sts[1:]), L.lst([srcd_lit(s) for s in c["srcs"]]), L.nat(c["k"]),
     L.lst([ev_lit(e) for e in o["ctor"]]), L.lst([ev_lit(e) for e in o["pull"]]))
 
 
@@ -631,8 +721,9 @@ def known(c, o):
 def source_sets(case, tier, kmax):
   """Source configurations for one (pipeline, k): endless, every finite length, tripwires."""
   n = STAGES[case["first"][0]]["nsrc"]
+  pre = ctor_prefix(case)
   if kmax == 0:   # construction only: endless sources, and tripwires that raise on the very first read
-    return [([["inf", 0]] * n, "src:endless"), ([["trip", 0]] * n, "src:tripwire")]
+    return [([["inf", 0]] * n, "src:endless"), ([["trip", pre.get(i, 0)] for i in range(n)], "src:tripwire")]
   res = []
   res.append(([["inf", 0]] * n, "src:endless"))
   for ln in range(0, 9):
@@ -646,7 +737,7 @@ def source_sets(case, tier, kmax):
           ss.append(["fin", max(0, ln + ((var + j) % 3) - 1)] if j else ["fin", ln])
         res.append((ss, "src:finite"))
   # tripwires at the need of the kmax demands, and one item before it
-  need = [py_need(case, i, kmax) for i in range(n)]
+  need = [py_need(case, i, kmax) + pre.get(i, 0) for i in range(n)]
   res.append(([["trip", min(need[i], 60)] for i in range(n)], "src:tripwire"))
   if need[0] > 0:
     res.append(([["trip", min(need[0] - 1, 60)]] + [["inf", 0]] * (n - 1), "src:tripwire-early"))
@@ -682,7 +773,7 @@ def out_type(name, tin):
 
 def gen_chain(rng, depth, tier):
   """A random well-typed chain: first stage on counting sources, then single-input stages."""
-  firsts = sorted(n for n, e in STAGES.items() if not e.get("eager") and e["kind"] != "tee" and e["tin"] != "blk")
+  firsts = sorted(n for n, e in STAGES.items() if not e.get("eager") and e["kind"] not in ("tee", "refuse") and e["tin"] != "blk")
   names = chainable(tier)
   for _ in range(200):
     f = rng.choice(firsts)
@@ -741,6 +832,8 @@ def gen_lazy(tier, rng):
     for gi, p in enumerate(grid):
       if e["kind"] == "tee":
         ks = [len(p[1])]
+      elif e["kind"] == "refuse":
+        ks = [0]
       elif e["kind"] in ("blocks",):
         ks = [0, 4]
       elif e["kind"] in ("ola", "stft", "resample", "pad", "cycle"):
@@ -759,8 +852,9 @@ def gen_lazy(tier, rng):
           base = {"first": [name, p], "rest": []}
           kk = ks[-1]
           n = e["nsrc"]
-          need = [py_need(base, i, kk) for i in range(n)]
-          confs = [(0, [["trip", 0]] * n, "src:tripwire"), (kk, [["inf", 0]] * n, "src:endless"),
+          pre = ctor_prefix(base)
+          need = [py_need(base, i, kk) + pre.get(i, 0) for i in range(n)]
+          confs = [(0, [["trip", pre.get(i, 0)] for i in range(n)], "src:tripwire"), (kk, [["inf", 0]] * n, "src:endless"),
                    (kk, [["fin", 3]] * n, "src:finite"), (kk, [["trip", min(need[i], 60)] for i in range(n)], "src:tripwire")]
           for k, srcs, stag in confs:
             yield {"first": [name, p], "rest": [], "srcs": srcs, "k": k, "wrap": w,
